@@ -30,15 +30,19 @@ func (in *Interp) visible(th *Thread, f *Frame, desc string, enabled func() bool
 	}
 	if th.granted {
 		th.granted = false
-		if desc != "send-handoff" {
-			in.schedTrace = append(in.schedTrace, th.id)
+		in.schedTrace = append(in.schedTrace, th.id)
+		if in.cfg.Debug {
+			fmt.Printf("  [sched] T%d %s @%s\n", th.id, desc, in.fset.Position(f.block.Instrs[f.ip].Pos()))
 		}
 		return true
 	}
 	if th.id < 0 || in.liveThreads() <= 1 {
 		if enabled == nil || enabled() {
-			if th.id >= 0 && desc != "send-handoff" {
+			if th.id >= 0 {
 				in.schedTrace = append(in.schedTrace, th.id)
+				if in.cfg.Debug {
+					fmt.Printf("  [sched1] T%d %s @%s\n", th.id, desc, in.fset.Position(f.block.Instrs[f.ip].Pos()))
+				}
 			}
 			return true
 		}
@@ -102,6 +106,9 @@ func (in *Interp) schedule() *Thread {
 	if t.opDesc == "start" {
 		// a new thread is released: recorded as its own event, the first instruction is not a visible operation
 		in.schedTrace = append(in.schedTrace, t.id)
+		if in.cfg.Debug {
+			fmt.Printf("  [sched] T%d start\n", t.id)
+		}
 		t.granted = false
 		t.opDesc = ""
 	}
@@ -286,13 +293,20 @@ func (in *Interp) execSelect(th *Thread, f *Frame, x *ssa.Select) {
 		res[i] = in.zero(tup.At(i).Type())
 	}
 	res[1] = in.tb.F
+	recordSel := th.id >= 0 && in.userContext(th)
 	if len(r) == 0 {
+		if recordSel {
+			in.selTrace = append(in.selTrace, -1)
+		}
 		res[0] = in.tb.Const(^uint64(0), 64)
 		f.env[x] = res
 		f.ip++
 		return
 	}
 	k := r[in.decide("select", len(r))]
+	if recordSel {
+		in.selTrace = append(in.selTrace, k)
+	}
 	res[0] = in.tb.Const(uint64(k), 64)
 	if states[k].send {
 		if states[k].ch.closed {
